@@ -405,7 +405,7 @@ def obligations(tier):
     obs.append(Ob("local.mutex.n3.K2", "vf.props.c19:local_lock", {"n": 3, "K": 2, "scenario": "mutex", "_must_reach": ["ran"]}, timeout=T,
                   bounds="3 contenders, K=2", weight=9))
     if tier == "thorough":
-        obs.append(Ob("local.mutex.n3.K3", "vf.props.c19:local_lock", {"n": 3, "K": 3, "scenario": "mutex"}, timeout=T * 2,
+        obs.append(Ob("local.mutex.n3.K3", "vf.props.c19:local_lock", {"n": 3, "K": 3, "scenario": "mutex"}, timeout=T,
                       bounds="3 contenders, K=3", weight=9, allow_inconclusive=True))
     obs.append(Ob("local.forked.n2.K2", "vf.props.c19:local_lock", {"n": 2, "K": 2, "scenario": "forked", "_must_reach": ["ran"]}, timeout=T,
                   bounds="one FileLock instance used once, then forked: 2 children contend through copies of it (inherited descriptor numbers), K=2", weight=4))
